@@ -1476,10 +1476,12 @@ func (fr *frame) assertsAtCall(st *State, x *ssa.Call) {
 	if !fr.top || fr.bc == nil || len(fr.bc.Asserts) == 0 || fr.u.specMode > 0 {
 		return
 	}
-	name, qual := "", ""
+	name, qual, short := "", "", ""
+	byName := func(p *types.Package) string { return p.Name() }
 	if x.Call.IsInvoke() {
 		name = x.Call.Method.Name()
 		qual = types.TypeString(types.Unalias(x.Call.Value.Type()), nil) + "." + name
+		short = types.TypeString(types.Unalias(x.Call.Value.Type()), byName) + "." + name // websocket.Conn.Write
 	} else if f := x.Call.StaticCallee(); f != nil {
 		name = f.Name()
 		qual = f.String()
@@ -1494,7 +1496,7 @@ func (fr *frame) assertsAtCall(st *State, x *ssa.Call) {
 	}
 	var env *specEnv
 	for _, as := range fr.bc.Asserts {
-		if as.Clause.Name != "call:"+name && as.Clause.Name != "call:"+qual {
+		if as.Clause.Name != "call:"+name && as.Clause.Name != "call:"+qual && (short == "" || as.Clause.Name != "call:"+short) {
 			continue
 		}
 		if fr.u.assertHit == nil {
